@@ -29,7 +29,7 @@ import (
 func init() {
 	Registry["C11"] = RunC11
 	Metas["C11"] = Meta{
-		Rule: "episode = 1..5 exchanges on one keep-alive connection of the real http1.HostClient: request built through the client API (method, URL with escaped path/query, header Set/Add, body as bytes / stream of known length / unknown length / LimitedReader / PostArgs form / multipart fields+file, basic-auth in the URL, proxy form) x generated response (fixed length, chunked with seeded chunk sizes and trailers, close-delimited, 204/304/HEAD bodiless, 100 Continue interim) x {buffered, streaming} x MaxResponseBodySize {unset, above, below} x header-name normalisation x seeded fragmentation of the response; parties: client <-> scripted server (request bytes decoded by the strict reader and net/http.ReadRequest) and client <-> real hertz server over the simulated network. Non-trivial: >= 2 exchanges or a response delivered in >= 2 fragments; distinct = abstract signature (request shape, response shape, mode, fragment buckets). Added later: server-initiated Connection: close followed by further exchanges, trailer fields without a Trailer announcement, spelling variants of the framing field names, callers that read only a prefix of a streamed body, requests abandoned with a cancelled context whose pooled objects are reused, fault response-cut: a server that dies inside a response body (that exchange is not judged beyond what was read being a prefix of what was sent; the exchanges after it are).",
+		Rule: "episode = 1..5 exchanges on one keep-alive connection of the real http1.HostClient: request built through the client API (method, URL with escaped path/query, header Set/Add, body as bytes / stream of known length / unknown length / LimitedReader / PostArgs form / multipart fields+file, basic-auth in the URL, proxy form) x generated response (fixed length, chunked with seeded chunk sizes and trailers, close-delimited, 204/304/HEAD bodiless, 100 Continue interim) x {buffered, streaming} x MaxResponseBodySize {unset, above, below} x header-name normalisation x seeded fragmentation of the response; parties: client <-> scripted server (request bytes decoded by the strict reader and net/http.ReadRequest) and client <-> real hertz server over the simulated network. Non-trivial: >= 2 exchanges or a response delivered in >= 2 fragments; distinct = abstract signature (request shape, response shape, mode, fragment buckets). Added later: server-initiated Connection: close followed by further exchanges, trailer fields without a Trailer announcement, spelling variants of the framing field names, callers that read only a prefix of a streamed body, requests abandoned with a cancelled context whose pooled objects are reused, fault response-cut: a server that dies inside a response body (that exchange is not judged beyond what was read being a prefix of what was sent; the exchanges after it are); fault early-response: the server answers 413 + close as soon as it has the head of a request with a large body, while the client is still writing it into a 2 KB socket buffer (fresh and pooled connections; the response that arrived before the close must be returned); HTTP/1.0 responses in the middle of a history, without a Connection field (the server closes) and with Connection: keep-alive (it does not).",
 		Real: []string{"http1.HostClient.Do/doNonNilReqResp", "req.Write/writeBodyStream/handleMultipart", "resp.ReadHeaders/ReadRespBody/ReadRespBodyStream/clientRespStream", "ext.ReadBody/readBodyChunked/ReadTrailer/bodyStream", "standard.Conn", "e2e party: route.Engine + http1.Server"},
 		Stub: []string{"TCP + dial (SimConn, SimDialer)", "scripted server (actor) in party (a)", "clock (synctest)"},
 		Assumptions: []string{
@@ -37,7 +37,7 @@ func init() {
 			"multipart bodies are compared after decoding (field/file names and contents); the boundary value is ignored",
 			"the maximum-response-size rule is asserted for buffered mode (error) and, for streaming mode, as 'the call does not fail and the body stream never yields more than the body'",
 		},
-		RequiredProbes: []string{"body-bytes", "body-stream-n", "body-stream-unknown", "body-limited", "body-form", "body-multipart", "resp-fixed", "resp-chunked", "resp-close-delimited", "resp-bodiless", "resp-100-continue", "resp-trailers", "stream-mode", "limit-below", "conn-reused", "e2e", "fragments", "basic-auth", "proxy-form", "resp-set-cookies", "response-cut-survived"},
+		RequiredProbes: []string{"body-bytes", "body-stream-n", "body-stream-unknown", "body-limited", "body-form", "body-multipart", "resp-fixed", "resp-chunked", "resp-close-delimited", "resp-bodiless", "resp-100-continue", "resp-trailers", "stream-mode", "limit-below", "conn-reused", "e2e", "fragments", "basic-auth", "proxy-form", "resp-set-cookies", "response-cut-survived", "early-response-reused-conn", "write-epipe-linger", "resp-http10-close", "resp-http10-keepalive"},
 	}
 }
 
@@ -139,8 +139,13 @@ func RunC11(ep *core.Episode) {
 		srv.Start()
 	}
 	var peer *PeerConn
+	earlyNext := false // the exchange about to start is an early-response one: its connection gets a small socket buffer
 	dialer.OnConnect = func(p *PeerConn) {
 		peer = p
+		if earlyNext {
+			p.A.Out.Cap = 2048
+			p.A.LingerData = true
+		}
 		if e2e {
 			p.A.Out.Auto = false
 			p.B.Out.Auto = false
@@ -159,6 +164,7 @@ func RunC11(ep *core.Episode) {
 		srvClose  bool
 		respBytes []byte
 		cut       bool // fault: the server dies inside the response body
+		early     bool // the server refuses the request as soon as it has the head: final response + close while the body is still being written
 	}
 	var exs []*exch
 	served := 0
@@ -166,6 +172,31 @@ func RunC11(ep *core.Episode) {
 	if !e2e {
 		S.AddSource(core.SourceFunc(func(add func(core.Event)) {
 			if peer == nil || served >= len(exs) {
+				return
+			}
+			if exs[served].early {
+				// the server takes what has arrived, and as soon as the head is complete (the body is not) it answers and closes
+				peer.B.AcceptFromWriter(peer.B.InflightTo())
+				peer.Pump()
+				rest := peer.Rx[peer.Off:]
+				he := bytes.Index(rest, []byte("\r\n\r\n"))
+				if he < 0 {
+					return
+				}
+				add(core.Event{Key: fmt.Sprintf("early-respond x%d", served), Weight: 25, Apply: func() {
+					ex := exs[served]
+					if !bytes.HasPrefix(rest, []byte(ex.rq.method+" ")) {
+						ep.Fail("C11.request-strict", "exchange %d: request head does not start with the method %s: %q", served, ex.rq.method, wire.Trunc(string(rest), 80))
+						return
+					}
+					peer.Reqs = append(peer.Reqs, nil)
+					peer.Off = len(peer.Rx)
+					served++
+					peer.A.In.Boundaries = nil
+					peer.B.Send(ex.respBytes, 0)
+					peer.B.Close()
+					ep.Logf("  early response after %dB of the request", len(rest))
+				}})
 				return
 			}
 			peer.Pump()
@@ -213,7 +244,7 @@ func RunC11(ep *core.Episode) {
 				ex.respBytes = b
 			}
 			exs = append(exs, ex)
-			ab := tp.Choose("abandon", 8) // 5: an abandoned request first; 6, 7: fault - the server dies inside the response body
+			ab := tp.Choose("abandon", 10) // 5: an abandoned request first; 6, 7: fault - the server dies inside the response body; 8, 9: early final response
 			if ab >= 6 && !e2e && !closeDelim && !ex.srvClose && rq.method != "HEAD" && len(ex.resp.Body) >= 2 && ex.resp.Status == 200 {
 				b := ex.respBytes
 				idx := bytes.Index(b, []byte("\r\n\r\n")) + 4
@@ -232,6 +263,25 @@ func RunC11(ep *core.Episode) {
 					ex.cut, ex.srvClose = true, true
 					ep.Fault("response-cut")
 				}
+			}
+			earlyNext = false
+			if ab >= 8 && !e2e && rq.bodyKind >= 1 && rq.bodyKind <= 4 && len(rq.body) >= 9000 {
+				// RFC 7230 6.6: a server may answer before it has read the whole request and close; the client, whose
+				// write then fails, still has to hand that response to the caller (on a fresh and on a reused connection)
+				m := &wire.Msg{Proto: "HTTP/1.1", Status: 413, Reason: "Request Entity Too Large", Body: []byte("too large")}
+				m.Headers = []wire.Header{{K: "X-Resp", V: fmt.Sprintf("early%d", i)}, {K: "Content-Type", V: "text/plain"}, {K: "Connection", V: "close"}}
+				ex.resp, ex.interim, ex.srvClose, ex.early = m, false, true, true
+				ex.respBytes, _ = m.Encode()
+				closeDelim = false
+				earlyNext = true
+				if peer != nil {
+					S.Mu.Lock()
+					peer.A.Out.Cap = 2048
+					peer.A.LingerData = true
+					S.Mu.Unlock()
+					ep.Probe("early-response-reused-conn")
+				}
+				ep.Fault("early-response")
 			}
 			if ab == 5 {
 				// a request that is prepared and never sent (its context is already cancelled): its objects go
@@ -743,10 +793,23 @@ func genC11Resp(tp *core.Tape, ep *core.Episode, i int, method string, last, ext
 	}
 	// the server announces that it closes the connection after this (framed) response, and does
 	srvClose := false
-	if !last && !(m.NoFraming && m.Status == 200 && method != "HEAD") && ext && tp.Chance("srvclose", 1, 6) {
-		srvClose = true
-		m.Headers = append(m.Headers, wire.Header{K: "Connection", V: "close"})
-		ep.Probe("resp-connection-close")
+	if !last && !(m.NoFraming && m.Status == 200 && method != "HEAD") && ext {
+		switch v := tp.Choose("srvclose", 8); {
+		case v == 5:
+			srvClose = true
+			m.Headers = append(m.Headers, wire.Header{K: "Connection", V: "close"})
+			ep.Probe("resp-connection-close")
+		case v == 6 && !m.Chunked:
+			// an HTTP/1.0 response without a Connection field: the server closes after it, and says so by its version only
+			m.Proto = "HTTP/1.0"
+			srvClose = true
+			ep.Probe("resp-http10-close")
+		case v == 7 && !m.Chunked:
+			// HTTP/1.0 with keep-alive: the connection stays open
+			m.Proto = "HTTP/1.0"
+			m.Headers = append(m.Headers, wire.Header{K: "Connection", V: "keep-alive"})
+			ep.Probe("resp-http10-keepalive")
+		}
 	}
 	return m, interim, srvClose
 }
